@@ -261,13 +261,46 @@ def extract(repo):
         ladder.append(dict(fn=fn, kind="custom", next=m.group(1)))
         fn = m.group(1)
     T["ladder"] = ladder
-    # parse_binary itself must be the left-associative loop
+    # parse_binary itself: `left = next(); loop { op; right = <operand level>(); left = fold or node }`.
+    # The right operand is the next level (left-associative loop) unless the opcode is one of those for which
+    # parse_binary recurses into the operator's own level through a *_withdc wrapper (right-associative):
+    #   right = (opcode == HAWK_BINOP_X)? parse_Y_withdc(hawk, &rloc): next_level_func(hawk, &rloc);
     pb = _func_body(parse_c, "parse_binary")
     if not re.search(r"left\s*=\s*next_level_func\s*\(hawk,\s*xloc\)", pb) or \
-       not re.search(r"right\s*=\s*next_level_func\s*\(hawk,\s*&rloc\)", pb) or \
        not re.search(r"do\s*\{.*while\s*\(1\)\s*;", pb, re.S):
-        raise ExtractError("parse_binary() is no longer `left = next(); loop { op; right = next(); left = node }`")
-    T["assoc"] = "left"
+        raise ExtractError("parse_binary() is no longer `left = next(); loop { op; right = ...; left = node }`")
+    rights = re.findall(r"\bright\s*=(?!=)\s*([^;]*);", pb)
+    rights = [r.strip() for r in rights if r.strip() != "HAWK_NULL"]
+    if len(rights) != 1:
+        raise ExtractError("parse_binary(): expected exactly one assignment of the right operand, found %r" % rights)
+    rexpr = re.sub(r"\s+", " ", rights[0])
+    recurse = {}   # opcode -> level function the right operand is parsed with
+    if re.fullmatch(r"next_level_func ?\(hawk, ?&rloc\)", rexpr):
+        pass
+    else:
+        m = re.fullmatch(r"((?:\(opcode == HAWK_BINOP_\w+\) ?\? ?parse_\w+_withdc ?\(hawk, ?&rloc\) ?: ?)+)next_level_func ?\(hawk, ?&rloc\)", rexpr)
+        if not m:
+            raise ExtractError("parse_binary(): right operand `%s` is neither next_level_func() nor a per-opcode selection of *_withdc()" % rexpr)
+        for opc, wfn in re.findall(r"\(opcode == (HAWK_BINOP_\w+)\) ?\? ?(parse_\w+_withdc)", m.group(1)):
+            wb = _func_body(parse_c, wfn)
+            mm = re.search(r"hawk->parse\.depth\.expr\+\+;\s*nde\s*=\s*(parse_\w+)\s*\(hawk,\s*xloc\);\s*hawk->parse\.depth\.expr--;\s*return\s+nde;", wb)
+            if not mm or "HAWK_EEXPRNST" not in wb or mm.group(1) + "_withdc" != wfn:
+                raise ExtractError("%s(): not `depth check; depth.expr++; nde = %s(hawk, xloc); depth.expr--; return nde`" % (wfn, wfn[:-7]))
+            if opc in recurse:
+                raise ExtractError("parse_binary(): opcode %s selected twice" % opc)
+            recurse[opc] = mm.group(1)
+    # a per-level flag is exact only if the recursing opcode belongs to exactly the level it recurses into
+    # and that level has no other opcode
+    for lv in ladder:
+        lv["rassoc"] = False
+    for opc, fnm in recurse.items():
+        owners = [lv for lv in ladder if lv["kind"] == "binary" and any(o == opc for t, o in lv["map"])]
+        if len(owners) != 1 or owners[0]["fn"] != fnm:
+            raise ExtractError("parse_binary(): %s recurses into %s() but is mapped by %s" % (opc, fnm, [l["fn"] for l in owners]))
+        if any(o != opc for t, o in owners[0]["map"]):
+            raise ExtractError("%s(): level mixes the right-associative %s with other operators (not supported by the model)" % (fnm, opc))
+        owners[0]["rassoc"] = True
+    T["assoc"] = {lv["fn"]: ("right" if lv["rassoc"] else "left") for lv in ladder if lv["kind"] == "binary"}
     # custom levels: the tokens they react to
     body = _func_body(parse_c, "parse_in")
     if not re.search(r"if\s*\(!MATCH\(hawk,\s*TOK_IN\)\)\s*break;", body) or "HAWK_BINOP_IN" not in body or \
@@ -429,10 +462,11 @@ def render(T):
     A("def concatTolerantStarters : List TK := [" + ", ".join(".%s" % _id(t, "TOK_") for t in T["concat_tolerant"]) + "]")
     A("def concatMin : TK := .%s" % _id(T["concat_min"], "TOK_"))
     A("")
-    A("/-- one level of the precedence ladder: either `parse_binary` with its `binmap_t` table (left-associative loop")
-    A("    over the next level) or one of the hand-written levels -/")
+    A("/-- one level of the precedence ladder: either `parse_binary` with its `binmap_t` table (a loop whose right operand is")
+    A("    parsed by the next level: left-associative, or - `rassoc` - by the level itself through its *_withdc wrapper:")
+    A("    right-associative) or one of the hand-written levels -/")
     A("inductive Level where")
-    A("  | binary (fn : String) (skipnl : Bool) (map : List (TK × BinOp))")
+    A("  | binary (fn : String) (skipnl : Bool) (rassoc : Bool) (map : List (TK × BinOp))")
     for c in KNOWN_CUSTOM.values():
         A("  | %s" % c)
     A("  deriving DecidableEq, Repr")
@@ -442,7 +476,7 @@ def render(T):
     rows = []
     for lv in T["ladder"]:
         if lv["kind"] == "binary":
-            rows.append("  .binary %s %s [%s]" % (_lstr(lv["fn"]), "true" if lv["skipnl"] else "false",
+            rows.append("  .binary %s %s %s [%s]" % (_lstr(lv["fn"]), "true" if lv["skipnl"] else "false", "true" if lv["rassoc"] else "false",
                                                  ", ".join("(.%s, .%s)" % (_id(t, "TOK_"), _id(o, "HAWK_BINOP_")) for t, o in lv["map"])))
         else:
             if lv["fn"] not in KNOWN_CUSTOM:
